@@ -66,6 +66,10 @@ func (s *Server) manifestDelete(repoStr, arg string) http.HandlerFunc {
 			err = func() error {
 				rdr, err := repo.BlobGet(desc.Digest)
 				if err != nil {
+					if errors.Is(err, types.ErrNotFound) || os.IsNotExist(err) {
+						// the content was deleted with the blob API, the subject cannot be read from it
+						return s.referrerDeleteUnknownSubject(repo, index, desc)
+					}
 					return err
 				}
 				raw, err := io.ReadAll(rdr)
